@@ -357,9 +357,50 @@ func targetPrograms() []prog {
 	return out
 }
 
+// numberPrograms: field numbers on and next to every power of two from 2^4 to 2^17 (tag width edges 15/16,
+// 2047/2048; table-size edges of any dense / split by-number index), in three messages reached as request root,
+// as response root and nested, one of them with the numbers declared in descending order.
+func numberPrograms() []prog {
+	var nums []int
+	for e := uint(4); e <= 17; e++ {
+		for d := -1; d <= 1; d++ {
+			nums = append(nums, 1<<e+d)
+		}
+	}
+	mk := func(name string, ns []int, rev bool) *pj.Msg {
+		m := &pj.Msg{Name: name}
+		for i := range ns {
+			n := ns[i]
+			if rev {
+				n = ns[len(ns)-1-i]
+			}
+			if n >= 19000 && n <= 19999 {
+				continue // reserved range
+			}
+			m.Fields = append(m.Fields, pj.F(fmt.Sprintf("n%d", n), n, pj.Int32))
+		}
+		return m
+	}
+	var even, odd []int
+	for i, n := range nums {
+		if i%2 == 0 {
+			even = append(even, n)
+		} else {
+			odd = append(odd, n)
+		}
+	}
+	inner := mk("Inner", odd, true)
+	req := mk("Req", nums, false)
+	req.Fields = append(req.Fields, pj.FM("inner", 3, "Inner"))
+	resp := mk("Resp", even, true)
+	f := &pj.File{Pkg: "pn", Msgs: []*pj.Msg{inner, req, resp}, Svcs: []*pj.Service{{Name: "S", Methods: []pj.Method{{"M", "Req", "Resp", false, false}}}}}
+	return []prog{{"numbers", single("numbers/pow2", f)}}
+}
+
 func allPrograms() []prog {
 	var out []prog
 	out = append(out, servicePrograms()...)
+	out = append(out, numberPrograms()...)
 	out = append(out, namePrograms()...)
 	out = append(out, kindPrograms()...)
 	out = append(out, recursionPrograms()...)
